@@ -99,7 +99,7 @@ theorem lexPre_append (p : Pre) (rest : List Char) (hp : (Term.pre p).WF) (hr : 
         have : 'r' ≠ c := by intro e; subst e; revert hc; decide
         simp [stripPrefix, this]
     have h2 : lexInteger ("#sup".toList ++ rest) = none := by simp [lexInteger, isNonzeroDigit]
-    have h3 : lexSymbol ("#sup".toList ++ rest) = none := by simp [lexSymbol, startsNegation]
+    have h3 : lexSymbol ("#sup".toList ++ rest) = none := by simp [lexSymbol, startsNotWord, startsNegation]
     simp only [Pre.printL, lexPre, h1, h2, h3]
     simp [stripPrefix]
   | num n =>
@@ -182,8 +182,8 @@ theorem lexPre_upper (c : Char) (r : List Char) (hc : c.isUpper = true) : lexPre
     · rename_i heq; cases heq
   have h4 : lexSymbol (c :: r) = none := by
     unfold lexSymbol
-    have : startsNegation (c :: r) = false := by
-      unfold startsNegation
+    have : startsNotWord (c :: r) = false := by
+      unfold startsNotWord
       split
       · rename_i heq; injection heq with e' _; exact absurd e' a5
       · rfl
@@ -202,7 +202,7 @@ theorem lexPre_upper (c : Char) (r : List Char) (hc : c.isUpper = true) : lexPre
   simp only [lexPre, e1, e2, e3, e4, h3, h4]
 
 theorem lexPre_paren (r : List Char) : lexPre ('(' :: r) = none := by
-  simp [lexPre, stripPrefix, lexInteger, isNonzeroDigit, lexSymbol, startsNegation]
+  simp [lexPre, stripPrefix, lexInteger, isNonzeroDigit, lexSymbol, startsNotWord, startsNegation]
 
 theorem lexVariable_paren (r : List Char) : lexVariable ('(' :: r) = none := by
   simp [lexVariable]
